@@ -950,3 +950,447 @@ func ruleSegScan(c *Ctx) {
 	// segment = sa[top.left : j], item and position of this iteration
 	c.check(s.cbSeg.Max == nil, name+":segment", s.cbSeg.Pos(), "reported segment is sa[top.left:j]", "reported segment has an unexpected capacity bound")
 }
+
+// ======================================================================
+// C09 (narrow): R-TEXT-RO, R-LCP-INPUTS, R-KASAI, R-INVERT
+// ======================================================================
+
+func init() {
+	reg(&Rule{ID: "R-TEXT-RO", Min: 1,
+		Doc: "no function of package suffix stores into, copies into or appends to a []byte, and byte slices are passed outside the package only to read-only library functions: the text t is never modified",
+		Run: ruleTextRO})
+	reg(&Rule{ID: "R-LCP-INPUTS", Min: 5,
+		Doc: "suffix.LCP reaches its core only with len(sa) = len(sainv) = len(lcp) = len(t); a supplied sa/sainv is used only when its length matches, otherwise a fresh one is filled by Sort(t, ·) / InvertSA(sa, ·) before use",
+		Run: ruleLcpInputs})
+	reg(&Rule{ID: "R-KASAI", Min: 5,
+		Doc: "the LCP core follows the Kasai/phi recurrence: over all text positions i with rank k = sainv[i]: k = 0 stores lcp[0] = 0 and restarts l; otherwise j = sa[k−1], l += matchLen(t[i+l:], t[j+l:]), lcp[k] = l, then l = max(l−1, 0)",
+		Run: ruleKasai})
+	reg(&Rule{ID: "R-INVERT", Min: 2,
+		Doc: "InvertSA stores sainv[sa[j]] = j for every index j and rejects slices of different length",
+		Run: ruleInvert})
+}
+
+func ruleTextRO(c *Ctx) {
+	n := 0
+	bad := 0
+	for _, fn := range c.allFuncs {
+		if fn.Pkg != c.suffix {
+			continue
+		}
+		n++
+		for _, b := range fn.Blocks {
+			for _, in := range b.Instrs {
+				switch x := in.(type) {
+				case *ssa.Store:
+					var base ssa.Value
+					switch a := x.Addr.(type) {
+					case *ssa.IndexAddr:
+						base = a.X
+					}
+					if base != nil && isByteSeq(base.Type()) {
+						bad++
+						c.fail(fmt.Sprintf("%s:byte-store#%d", fnName(fn), bad), x.Pos(), "store into an element of a byte slice: package suffix must not modify the text")
+					}
+				case *ssa.Call:
+					if bi, ok := x.Call.Value.(*ssa.Builtin); ok {
+						if (bi.Name() == "copy" || bi.Name() == "append") && len(x.Call.Args) > 0 && isByteSeq(x.Call.Args[0].Type()) {
+							bad++
+							c.fail(fmt.Sprintf("%s:byte-%s#%d", fnName(fn), bi.Name(), bad), x.Pos(), "%s with a byte-slice destination: package suffix must not modify (or alias-extend) the text", bi.Name())
+						}
+						continue
+					}
+					callee := x.Call.StaticCallee()
+					passes := false
+					for _, a := range x.Call.Args {
+						if isByteSeq(a.Type()) {
+							passes = true
+						}
+					}
+					if !passes {
+						continue
+					}
+					if callee == nil {
+						bad++
+						c.fail(fmt.Sprintf("%s:byte-escape#%d", fnName(fn), bad), x.Pos(), "a byte slice is passed to a dynamically dispatched call; read-only use cannot be decided")
+						continue
+					}
+					if callee.Pkg == c.suffix {
+						continue // analysed itself
+					}
+					pk := ""
+					if callee.Pkg != nil {
+						pk = callee.Pkg.Pkg.Path()
+					}
+					if pk == "bytes" && (callee.Name() == "Equal" || callee.Name() == "Compare" || callee.Name() == "HasPrefix") {
+						continue
+					}
+					bad++
+					c.fail(fmt.Sprintf("%s:byte-escape#%d", fnName(fn), bad), x.Pos(), "a byte slice is passed to %s.%s, which is not in the list of read-only library functions", pk, callee.Name())
+				}
+			}
+		}
+	}
+	if bad == 0 {
+		c.ok("suffix:text-read-only", token.NoPos, "%d functions of package suffix: no store / copy / append with a byte-slice destination, byte slices leave the package only to bytes.Equal/Compare", n)
+	}
+}
+
+func isByteSeq(t types.Type) bool {
+	switch u := t.Underlying().(type) {
+	case *types.Slice:
+		b, ok := u.Elem().Underlying().(*types.Basic)
+		return ok && b.Kind() == types.Uint8
+	case *types.Pointer:
+		if a, ok := u.Elem().Underlying().(*types.Array); ok {
+			b, ok := a.Elem().Underlying().(*types.Basic)
+			return ok && b.Kind() == types.Uint8
+		}
+	}
+	return false
+}
+
+func ruleLcpInputs(c *Ctx) {
+	fn := c.suffix.Func("LCP")
+	if fn == nil || len(fn.Params) != 4 {
+		c.fail("suffix.LCP", token.NoPos, "suffix.LCP(t, sa, sainv, lcp) not found")
+		return
+	}
+	fi := c.info(fn)
+	t, saP, invP, lcpP := fn.Params[0], fn.Params[1], fn.Params[2], fn.Params[3]
+	// the core: the static callee of package suffix that receives t and lcp
+	var core *ssa.Call
+	for _, b := range fn.Blocks {
+		for _, in := range b.Instrs {
+			if call, ok := in.(*ssa.Call); ok && call.Call.StaticCallee() != nil && call.Call.StaticCallee().Pkg == c.suffix && len(call.Call.Args) == 4 &&
+				call.Call.Args[0] == ssa.Value(t) && call.Call.Args[3] == ssa.Value(lcpP) {
+				core = call
+			}
+		}
+	}
+	if core == nil {
+		c.fail("suffix.LCP:core", fn.Pos(), "no call of the LCP core with (t, sa, sainv, lcp)")
+		return
+	}
+	sa, inv := core.Call.Args[1], core.Call.Args[2]
+	lt := fi.lenOf(t)
+	eqAt := func(a, b Lin) bool {
+		return fi.proveAt(a.sub(b), core.Block(), nil) && fi.proveAt(b.sub(a), core.Block(), nil)
+	}
+	c.check(eqAt(fi.lenOf(sa), lt), "suffix.LCP:len(sa)", core.Pos(), "core reached only with len(sa) = len(t)", "the LCP core can be reached with len(sa) ≠ len(t)")
+	c.check(eqAt(fi.lenOf(inv), fi.lenOf(sa)), "suffix.LCP:len(sainv)", core.Pos(), "core reached only with len(sainv) = len(sa)", "the LCP core can be reached with len(sainv) ≠ len(sa)")
+	c.check(eqAt(fi.lenOf(lcpP), lt), "suffix.LCP:len(lcp)", core.Pos(), "core reached only with len(lcp) = len(t)", "the LCP core can be reached with len(lcp) ≠ len(t)")
+	// provenance of sa: the parameter (length matches) or a fresh slice passed to Sort(t, ·)
+	srt := c.suffix.Func("Sort")
+	invF := c.suffix.Func("InvertSA")
+	prov := func(v ssa.Value, param *ssa.Parameter, filler *ssa.Function, first ssa.Value, what string) {
+		key := "suffix.LCP:" + what + ":provenance"
+		leaves := phiLeaves(v)
+		good := true
+		detail := ""
+		for _, lf := range leaves {
+			if lf.V == ssa.Value(param) {
+				continue
+			}
+			mk, isMk := lf.V.(*ssa.MakeSlice)
+			if !isMk {
+				good = false
+				detail = "value is neither the parameter nor a fresh slice"
+				continue
+			}
+			filled := false
+			for _, ref := range *mk.Referrers() {
+				if call, ok := ref.(*ssa.Call); ok && call.Call.StaticCallee() == filler && filler != nil && len(call.Call.Args) == 2 &&
+					call.Call.Args[1] == ssa.Value(mk) && call.Call.Args[0] == first &&
+					(lf.Pred == nil || call.Block() == lf.Pred || call.Block().Dominates(lf.Pred)) {
+					filled = true
+				}
+			}
+			if !filled {
+				good = false
+				detail = "the freshly allocated " + what + " is not filled by " + what + "'s constructor before use"
+			}
+		}
+		c.check(good, key, core.Pos(), what+" is the caller's (length-checked) or freshly computed from the same text / suffix array", detail)
+	}
+	prov(sa, saP, srt, t, "sa")
+	prov(inv, invP, invF, sa, "sainv")
+}
+
+func ruleKasai(c *Ctx) {
+	lcpFn := c.suffix.Func("LCP")
+	if lcpFn == nil {
+		c.fail("suffix.lcp-core", token.NoPos, "suffix.LCP not found")
+		return
+	}
+	var core *ssa.Function
+	for _, b := range lcpFn.Blocks {
+		for _, in := range b.Instrs {
+			if call, ok := in.(*ssa.Call); ok && call.Call.StaticCallee() != nil && call.Call.StaticCallee().Pkg == c.suffix && len(call.Call.Args) == 4 && call.Call.Args[0] == ssa.Value(lcpFn.Params[0]) {
+				core = call.Call.StaticCallee()
+			}
+		}
+	}
+	if core == nil || len(core.Params) != 4 {
+		c.fail("suffix.lcp-core", lcpFn.Pos(), "LCP core not found")
+		return
+	}
+	fi := c.info(core)
+	name := fnName(core)
+	t, sa, inv, lcp := core.Params[0], core.Params[1], core.Params[2], core.Params[3]
+	if len(fi.loops) != 1 {
+		c.fail(name+":loop", core.Pos(), "expected a single loop over the text positions, found %d", len(fi.loops))
+		return
+	}
+	L := fi.loops[0]
+	// rank k = sainv[i], i the loop index covering 0 … len(sainv)−1
+	var kLoad *ssa.UnOp
+	var iIdx ssa.Value
+	for b := range L.Blocks {
+		for _, in := range b.Instrs {
+			if ld, ok := in.(*ssa.UnOp); ok && ld.Op == token.MUL {
+				if ia, isIA := ld.X.(*ssa.IndexAddr); isIA && ia.X == ssa.Value(inv) {
+					kLoad, iIdx = ld, ia.Index
+				}
+			}
+		}
+	}
+	if kLoad == nil {
+		c.fail(name+":rank", core.Pos(), "the loop does not read the rank sainv[i]")
+		return
+	}
+	// coverage of i
+	cov := false
+	for _, in := range L.Header.Instrs {
+		ph, ok := in.(*ssa.Phi)
+		if !ok || !isIntType(ph.Type()) {
+			continue
+		}
+		iff, isIf := L.Header.Instrs[len(L.Header.Instrs)-1].(*ssa.If)
+		if !isIf {
+			continue
+		}
+		stay := L.Blocks[L.Header.Succs[0]]
+		fs := fi.factsOf([]Cond{{iff.Cond, stay}})
+		if len(fs) != 1 || fs[0].Op != LE {
+			continue
+		}
+		var initL Lin
+		step := true
+		nb := 0
+		for k, e := range ph.Edges {
+			if L.Blocks[ph.Block().Preds[k]] {
+				nb++
+				if !fi.lin(e).eq(fi.lin(ph).addc(1)) {
+					step = false
+				}
+			} else {
+				initL = fi.lin(e)
+			}
+		}
+		if !step || nb == 0 {
+			continue
+		}
+		li := fi.lenOf(inv)
+		ii := fi.lin(iIdx)
+		if ii.eq(fi.lin(ph).addc(1)) && initL.isConst() && initL.c == -1 && fs[0].L.eq(fi.lin(ph).addc(2).sub(li)) {
+			cov = true
+		}
+		if ii.eq(fi.lin(ph)) && initL.isConst() && initL.c == 0 && fs[0].L.eq(fi.lin(ph).addc(1).sub(li)) {
+			cov = true
+		}
+	}
+	c.check(cov, name+":positions", kLoad.Pos(), "the loop visits every text position i = 0 … len(sainv)−1 and reads k = sainv[i]", "the loop does not visit every text position 0 … len(sainv)−1")
+	// rank 0: lcp[0] = 0
+	zero := false
+	for b := range L.Blocks {
+		for _, in := range b.Instrs {
+			st, ok := in.(*ssa.Store)
+			if !ok {
+				continue
+			}
+			ia, isIA := st.Addr.(*ssa.IndexAddr)
+			if !isIA || ia.X != ssa.Value(lcp) || !isConstZero(st.Val) {
+				continue
+			}
+			// index 0 (constant, or k under k == 0), block dominated by k == 0
+			k := fi.lin(kLoad)
+			idx0 := isConstZero(ia.Index) || fi.lin(ia.Index).eq(k)
+			if idx0 && fi.proveLE(k, b, nil) && fi.proveLE(k.scale(-1), b, nil) {
+				zero = true
+			}
+		}
+	}
+	if !zero {
+		// or unconditionally before the loop
+		for _, b := range core.Blocks {
+			if L.Blocks[b] {
+				continue
+			}
+			for _, in := range b.Instrs {
+				if st, ok := in.(*ssa.Store); ok {
+					if ia, isIA := st.Addr.(*ssa.IndexAddr); isIA && ia.X == ssa.Value(lcp) && isConstZero(st.Val) && isConstZero(ia.Index) && b.Dominates(L.Header) {
+						zero = true
+					}
+				}
+			}
+		}
+	}
+	c.check(zero, name+":lcp[0]", core.Pos(), "lcp[0] = 0 is stored (rank-0 branch)", "lcp[0] is never set to 0: LCP leaves a stale value in slot 0 of a reused buffer")
+	// general step
+	var ml *ssa.Call
+	for b := range L.Blocks {
+		for _, in := range b.Instrs {
+			if call, ok := in.(*ssa.Call); ok && call.Call.StaticCallee() != nil && call.Call.StaticCallee().Pkg == c.suffix && len(call.Call.Args) == 2 &&
+				isByteSeq(call.Call.Args[0].Type()) && isByteSeq(call.Call.Args[1].Type()) && isIntType(call.Type()) {
+				ml = call
+			}
+		}
+	}
+	if ml == nil {
+		c.fail(name+":compare", core.Pos(), "no common-prefix computation in the loop")
+		return
+	}
+	a0, ok0 := ml.Call.Args[0].(*ssa.Slice)
+	a1, ok1 := ml.Call.Args[1].(*ssa.Slice)
+	shape := ok0 && ok1 && a0.X == ssa.Value(t) && a1.X == ssa.Value(t) && a0.High == nil && a1.High == nil && a0.Low != nil && a1.Low != nil
+	var lphi ssa.Value
+	var jLoad *ssa.UnOp
+	if shape {
+		// lows are i + l and j + l for the same l; j = sa[k−1]
+		i := fi.lin(iIdx)
+		for _, pr := range [][2]*ssa.Slice{{a0, a1}, {a1, a0}} {
+			d := fi.lin(pr[0].Low).sub(i) // = l
+			if len(d.t) != 1 || d.c != 0 {
+				continue
+			}
+			rest := fi.lin(pr[1].Low).sub(d) // = j
+			av := fi.atomValues()
+			for a := range d.t {
+				lphi = av[a]
+			}
+			if len(rest.t) == 1 && rest.c == 0 {
+				for a := range rest.t {
+					if ld, ok := av[a].(*ssa.UnOp); ok && ld.Op == token.MUL {
+						if ia, isIA := ld.X.(*ssa.IndexAddr); isIA && ia.X == ssa.Value(sa) && fi.lin(ia.Index).eq(fi.lin(kLoad).addc(-1)) {
+							jLoad = ld
+						}
+					}
+				}
+			}
+		}
+	}
+	c.check(shape && jLoad != nil && lphi != nil, name+":compare", ml.Pos(), "compares t[i+l:] with t[j+l:], j = sa[k−1]", "the common prefix is not computed between t[i+l:] and t[sa[k−1]+l:] for the carried l")
+	if lphi == nil {
+		return
+	}
+	// lcp[k] = l + matchLen
+	lnew := fi.lin(lphi).add(fi.lin(ml))
+	stored := false
+	for b := range L.Blocks {
+		for _, in := range b.Instrs {
+			if st, ok := in.(*ssa.Store); ok {
+				if ia, isIA := st.Addr.(*ssa.IndexAddr); isIA && ia.X == ssa.Value(lcp) && fi.lin(ia.Index).eq(fi.lin(kLoad)) && fi.lin(st.Val).eq(lnew) {
+					stored = true
+				}
+			}
+		}
+	}
+	c.check(stored, name+":store", ml.Pos(), "lcp[k] = l + matchLen(…)", "lcp[k] is not set to the carried l plus the newly matched length")
+	// carried l: l_new − 1 under l_new > 0, l_new (= 0) or 0 otherwise, 0 after rank 0
+	ph, isPhi := lphi.(*ssa.Phi)
+	carry := isPhi && ph.Block() == L.Header
+	if carry {
+		for k, e := range ph.Edges {
+			pred := ph.Block().Preds[k]
+			if !L.Blocks[pred] {
+				if !isConstZero(e) {
+					carry = false
+				}
+				continue
+			}
+			cs := fi.edgeConds(pred, ph.Block())
+			el := fi.lin(e)
+			switch {
+			case el.eq(lnew.addc(-1)):
+				// requires l_new ≥ 1
+				if !fi.proveLE0(linConst(1).sub(lnew), cs, nil, map[string]bool{}, 0) {
+					carry = false
+				}
+			case el.eq(lnew):
+				if !fi.proveLE0(lnew, cs, nil, map[string]bool{}, 0) {
+					carry = false
+				}
+			case el.isConst() && el.c == 0:
+				// after rank 0 (restart) or when l_new ≤ 0
+				k0 := fi.lin(kLoad)
+				r0 := fi.proveLE0(k0, cs, nil, map[string]bool{}, 0) && fi.proveLE0(k0.scale(-1), cs, nil, map[string]bool{}, 0)
+				if !r0 && !fi.proveLE0(lnew, cs, nil, map[string]bool{}, 0) {
+					carry = false
+				}
+			default:
+				carry = false
+			}
+		}
+	}
+	c.check(carry, name+":carry", ml.Pos(), "the carried length is max(l−1, 0), restarted at 0 after the rank-0 suffix", "the carried length is not max(l − 1, 0) (restart 0 after rank 0): the recurrence lcp(phi) ≥ l − 1 is not followed")
+}
+
+func ruleInvert(c *Ctx) {
+	fn := c.suffix.Func("InvertSA")
+	if fn == nil || len(fn.Params) != 2 {
+		c.fail("suffix.InvertSA", token.NoPos, "suffix.InvertSA(sa, sainv) not found")
+		return
+	}
+	fi := c.info(fn)
+	sa, inv := fn.Params[0], fn.Params[1]
+	okSt := false
+	var at *ssa.BasicBlock
+	for _, b := range fn.Blocks {
+		for _, in := range b.Instrs {
+			st, ok := in.(*ssa.Store)
+			if !ok {
+				continue
+			}
+			ia, isIA := st.Addr.(*ssa.IndexAddr)
+			if !isIA || ia.X != ssa.Value(inv) {
+				continue
+			}
+			ld, isLd := stripConv(ia.Index).(*ssa.UnOp)
+			if !isLd || ld.Op != token.MUL {
+				continue
+			}
+			ia2, isIA2 := ld.X.(*ssa.IndexAddr)
+			if !isIA2 || ia2.X != ssa.Value(sa) {
+				continue
+			}
+			if fi.lin(st.Val).eq(fi.lin(ia2.Index)) {
+				okSt = true
+				at = b
+			}
+		}
+	}
+	c.check(okSt, "suffix.InvertSA:store", fn.Pos(), "sainv[sa[j]] = j", "InvertSA does not store sainv[sa[j]] = j")
+	cov := false
+	if at != nil {
+		if l := fi.loopOf(at); l != nil {
+			for _, in := range l.Header.Instrs {
+				ph, ok := in.(*ssa.Phi)
+				if !ok || !isIntType(ph.Type()) {
+					continue
+				}
+				iff, isIf := l.Header.Instrs[len(l.Header.Instrs)-1].(*ssa.If)
+				if !isIf {
+					continue
+				}
+				stay := l.Blocks[l.Header.Succs[0]]
+				fs := fi.factsOf([]Cond{{iff.Cond, stay}})
+				if len(fs) == 1 && fs[0].Op == LE && fs[0].L.eq(fi.lin(ph).addc(2).sub(fi.lenOf(sa))) {
+					cov = true
+				}
+			}
+			lens := fi.proveAt(fi.lenOf(sa).sub(fi.lenOf(inv)), l.Header, nil) && fi.proveAt(fi.lenOf(inv).sub(fi.lenOf(sa)), l.Header, nil)
+			cov = cov && lens
+		}
+	}
+	c.check(cov, "suffix.InvertSA:all", fn.Pos(), "every index of sa is inverted, under len(sa) = len(sainv)", "InvertSA does not cover every index of sa under len(sa) = len(sainv)")
+}
